@@ -511,7 +511,9 @@ class World:
                 if same:
                     tmp.remove(m)
                 want = [m if x == -1 else x for x in tmp]
-            settle(want, ambiguous=same and f == "insert")
+            # a module of this very list inserted again moves: the built-in
+            # result minus its old occurrence, as for item / slice assignment
+            settle(want)
         elif f in ("extend", "iadd") and op.get("as") == "view":
             # the argument is another IR's (or this IR's) live module list: the
             # built-in appends every element of it in order; "moved rather than
